@@ -685,7 +685,8 @@ class Emitter:
             if len(args) == 1 and self.tm.info(qtype(strip_all(args[0])))['ctype'] == ti['ctype'] \
                     and strip_all(args[0])['kind'] != 'CXXConstructExpr':
                 a0 = strip_all(args[0])
-                return 'vp_%s_copy(@DST@, &(%s));' % (ti['ctype'], self.emit(a0))
+                cp = 'vp_%s_copy' % ti['ctype']
+                return '%s(@DST@, &(%s));' % (self.opts.get('rename', {}).get(cp, cp), self.emit(a0))
             ctor_t = n.get('ctorType', {}).get('qualType') or n.get('type', {}).get('qualType')
             cname = self.ctor_name(ti, ctor_t, len(args))
             self.calls.add(cname)
@@ -706,7 +707,8 @@ class Emitter:
         m = self.opts.get('ctors', {})
         if key in m:
             return m[key]
-        return '%s_ctor%d' % (ti['ctype'], nargs)
+        nm = '%s_ctor%d' % (ti['ctype'], nargs)
+        return self.opts.get('rename', {}).get(nm, nm)
 
     # -- references to declarations ------------------------------------------------------------------
     def o_DeclRefExpr(self, n):
